@@ -65,6 +65,28 @@ Theorem adjoint_real_branches_agree : forall (T : Type) (NT : Num T) (CT : Conj 
 Proof. exact (@real_reading_agrees). Qed.
 Print Assumptions adjoint_model_is_generated.
 
+(* TRANSFER.  The model the correspondence shards EXECUTE (carriers Q and Q*Q) is the restriction of the model
+   the theorems are ABOUT (carriers R and R*R): Q2R (and its componentwise lift Q2C to complex pairs) is a carrier
+   homomorphism and commutes with the evaluation of every tree, with [adjoint], and with the evaluation of the
+   returned adjoint.  [all_divs_ok]: the divisors occurring in a leaf (cell volumes, product-space weights, cell
+   sides) are not zero.  Real carrier: every leaf kind (finite differences through C13.fd_transfer, resizing through
+   C16.resize1_transfer); complex carrier: the leaves built from the carrier operations only ([leaf_fine]). *)
+From Verif Require Import Base.Transfer C05.Transfer C05.TransferNd.
+From Coq Require Import QArith Qreals.
+Theorem model_transfer_real : forall e : oexpr Q,      (* [divsb]: evaluated on every case by Corr.check_wf *)
+  divsb e = true -> divsb (adjoint e) = true ->
+  (forall x, map Q2R (eval e x) = eval (omap Q2R e) (map Q2R x)) /\
+  omap Q2R (adjoint e) = adjoint (omap Q2R e) /\
+  (forall y, map Q2R (eval (adjoint e) y) = eval (adjoint (omap Q2R e)) (map Q2R y)).
+Proof. exact transfer_real_checked. Qed.
+Theorem model_transfer_complex : forall e : oexpr (Q * Q),
+  Forall leaf_fine (leaves e) -> Forall leaf_fine (leaves (adjoint e)) ->
+  (forall x, map Q2C (eval e x) = eval (omap Q2C e) (map Q2C x)) /\
+  omap Q2C (adjoint e) = adjoint (omap Q2C e) /\
+  (forall y, map Q2C (eval (adjoint e) y) = eval (adjoint (omap Q2C e)) (map Q2C y)).
+Proof. exact transfer_complex. Qed.
+Print Assumptions model_transfer_complex.
+
 (* T1 (A.adjoint.adjoint acts like A, all trees): whenever the expression and the expression
    returned as its adjoint are both well-formed with good leaves, and the weights are real
    and invertible, the double adjoint evaluates like the operator itself (uniqueness of the
